@@ -23,6 +23,13 @@ N10 helper(args) as a statement, helper a short loop-free statement sequence of 
 N11 NAME (module-level, bound once to an int / str literal, not a name the rules know) -> the literal
 N12 str('lit') -> 'lit'; int(<int expression>) -> the expression; bool(<comparison>) and bool(x) in a condition -> x
 N13 x: T = v -> x = v (annotated locals)
+N14 f(a, q=b) with f a package function whose positional parameter list is known -> f(a, b)  (keywords that name
+    positional parameters, no hole left, arguments evaluated in the same order)
+N15 if k in d: d[k].append(x) else: d[k] = [x]   ->   if k not in d: d[k] = []   d[k].append(x)   (and the mirrored form)
+N16 (a := <access path or pure expression>) ... a ...  ->  the expression in place of the binding and of every use
+    (a bound only there, uses lexically after it, the operands not written in between)
+N5x alias.helper(args) / helper(args), helper a public or foreign-module function whose body is `return <expr>` and
+    whose name no rule knows  ->  <expr>, module-level names of the helper's module qualified for the caller
 N8  list(reversed(x)) -> x[::-1];  sorted(d.keys()) / for k in d.keys() / k in d.keys()  ->  without .keys()
 """
 import ast
@@ -404,11 +411,13 @@ def _block_rewrite(func, fn):
 
 # --------------------------------------------------------------------------- N5 helper inlining
 
-def _expr_helpers(tree):
-    """private module-level functions whose body is `return <expr>` (after an optional docstring)."""
+def _expr_helpers(tree, public_ok=None):
+    """private module-level functions whose body is `return <expr>` (after an optional docstring);
+    public ones too when public_ok(name) says that no rule refers to them."""
     out = {}
     for st in tree.body:
-        if isinstance(st, ast.FunctionDef) and st.name.startswith('_') and not st.name.startswith('__'):
+        if isinstance(st, ast.FunctionDef) and not st.name.startswith('__') and (
+                st.name.startswith('_') or (public_ok is not None and public_ok(st.name))):
             a = st.args
             if a.vararg or a.kwarg or a.kwonlyargs or a.defaults or a.posonlyargs or st.decorator_list:
                 continue
@@ -520,17 +529,25 @@ def _n10_inline_stmt(st, helpers, caller_locals):
 
 
 class _Inline(ast.NodeTransformer):
-    def __init__(self, helpers, caller_locals):
+    def __init__(self, helpers, caller_locals, foreign=None, aliases=None):
         self.helpers = helpers
         self.locals = caller_locals
+        self.foreign = foreign or {}      # (module, name) -> (def, expr, module-level names used)
+        self.aliases = aliases or {}
         self.done = False
 
     def visit_Call(self, n):
         self.generic_visit(n)
         f = n.func
-        if not (isinstance(f, ast.Name) and f.id in self.helpers and f.id not in self.locals):
+        qualify = None
+        if isinstance(f, ast.Attribute) and isinstance(f.value, ast.Name) and f.value.id in self.aliases \
+                and f.value.id not in self.locals and (self.aliases[f.value.id], f.attr) in self.foreign:
+            h, e, modnames = self.foreign[(self.aliases[f.value.id], f.attr)]
+            qualify = (f.value.id, modnames)
+        elif isinstance(f, ast.Name) and f.id in self.helpers and f.id not in self.locals:
+            h, e = self.helpers[f.id]
+        else:
             return n
-        h, e = self.helpers[f.id]
         params = [a.arg for a in h.args.args]
         if n.keywords or len(n.args) != len(params) or any(isinstance(a, ast.Starred) for a in n.args):
             return n
@@ -541,6 +558,10 @@ class _Inline(ast.NodeTransformer):
             if isinstance(x, ast.Lambda):
                 bound |= set(a.arg for a in x.args.args)
         free = _names(e) - set(params) - bound
+        if qualify is not None:
+            if bound & set(qualify[1]):
+                return n
+            free -= set(qualify[1])
         if free & self.locals:
             return n          # a module-level name of the helper is shadowed in the caller
         argnames = set()
@@ -558,7 +579,12 @@ class _Inline(ast.NodeTransformer):
             if counts[p] == 0 and not _pure(a):
                 return n
         self.done = True
-        return _loc(_Subst(dict(zip(params, n.args))).visit(copy.deepcopy(e)), n)
+        mapping = dict(zip(params, n.args))
+        if qualify is not None:
+            for nm in qualify[1]:
+                if nm not in mapping:
+                    mapping[nm] = ast.Attribute(value=ast.Name(id=qualify[0], ctx=ast.Load()), attr=nm, ctx=ast.Load())
+        return _loc(_Subst(mapping).visit(copy.deepcopy(e)), n)
 
 
 # --------------------------------------------------------------------------- N6 / N7 aliases and temporaries
@@ -619,10 +645,12 @@ def _impure_call_in(stmts, env):
             if isinstance(fn, ast.Name):
                 if fn.id in loc:
                     return True
-                if fn.id in PURE_BUILTINS or fn.id in EXTRA_PURE or (mname, fn.id) in ctx['pure']:
-                    continue
+                if fn.id in PURE_BUILTINS or fn.id in EXTRA_PURE or (mname, fn.id) in ctx['pure'] or fn.id == 'print':
+                    continue          # print writes to a stream, not to anything a program value is read from
                 return True
             if isinstance(fn, ast.Attribute):
+                if fn.attr == 'write' and ast.unparse(fn.value) in ('sys.stderr', 'sys.stdout'):
+                    continue
                 if isinstance(fn.value, ast.Name) and fn.value.id in aliases and fn.value.id not in loc:
                     if (aliases[fn.value.id], fn.attr) in ctx['pure']:
                         continue
@@ -757,6 +785,196 @@ def _n7_temp(func):
     return False
 
 
+# --------------------------------------------------------------------------- N14 keyword arguments
+
+class _Positional(ast.NodeTransformer):
+    """f(a, q=b) -> f(a, b) for package functions with a known plain parameter list."""
+
+    def __init__(self, sigs, mname, aliases, caller_locals):
+        self.sigs, self.mname, self.aliases, self.locals = sigs, mname, aliases, caller_locals
+        self.count = 0
+
+    def visit_Call(self, n):
+        self.generic_visit(n)
+        if not n.keywords or any(k.arg is None for k in n.keywords) or any(isinstance(a, ast.Starred) for a in n.args):
+            return n
+        f = n.func
+        key = None
+        if isinstance(f, ast.Name) and f.id not in self.locals:
+            key = (self.mname, f.id)
+        elif isinstance(f, ast.Attribute) and isinstance(f.value, ast.Name) and f.value.id in self.aliases \
+                and f.value.id not in self.locals:
+            key = (self.aliases[f.value.id], f.attr)
+        params = self.sigs.get(key)
+        if not params:
+            return n
+        have = len(n.args)
+        byname = dict((k.arg, k) for k in n.keywords)
+        if len(byname) != len(n.keywords):
+            return n
+        moved = []
+        pos = have
+        while pos < len(params) and params[pos] in byname:
+            moved.append(byname[params[pos]])
+            pos += 1
+        if not moved:
+            return n
+        # evaluation order: the moved keywords must be the first keywords, in this order, or everything is pure
+        in_order = n.keywords[:len(moved)] == moved
+        if not in_order and not all(_pure(k.value) for k in n.keywords):
+            return n
+        n.args = list(n.args) + [k.value for k in moved]
+        n.keywords = [k for k in n.keywords if k not in moved]
+        self.count += 1
+        return n
+
+
+# --------------------------------------------------------------------------- N15 create-or-append
+
+def _n15_dict_init(st):
+    """if k in d: d[k].append(x) else: d[k] = [x]  (or mirrored)  ->  if k not in d: d[k] = []; d[k].append(x)"""
+    if not (isinstance(st, ast.If) and len(st.body) == 1 and len(st.orelse) == 1):
+        return None
+    t = st.test
+    neg = False
+    if isinstance(t, ast.UnaryOp) and isinstance(t.op, ast.Not):
+        t, neg = t.operand, True
+    if not (isinstance(t, ast.Compare) and len(t.ops) == 1 and isinstance(t.ops[0], (ast.In, ast.NotIn))):
+        return None
+    present = isinstance(t.ops[0], ast.In) != neg
+    k, d = t.left, t.comparators[0]
+    if not (_pure(k) and _is_path(d)):
+        return None
+    app, init = (st.body[0], st.orelse[0]) if present else (st.orelse[0], st.body[0])
+    slot = ast.dump(ast.Subscript(value=d, slice=k, ctx=ast.Load()))
+
+    def is_slot(e):
+        return isinstance(e, ast.Subscript) and ast.dump(ast.Subscript(value=e.value, slice=e.slice, ctx=ast.Load())) == slot
+    if not (isinstance(app, ast.Expr) and isinstance(app.value, ast.Call) and isinstance(app.value.func, ast.Attribute)
+            and app.value.func.attr in ('append', 'add') and is_slot(app.value.func.value)
+            and len(app.value.args) == 1 and not app.value.keywords):
+        return None
+    x = app.value.args[0]
+    if not (isinstance(init, ast.Assign) and len(init.targets) == 1 and is_slot(init.targets[0])):
+        return None
+    v = init.value
+    if app.value.func.attr == 'append':
+        if not (isinstance(v, ast.List) and len(v.elts) == 1 and ast.dump(v.elts[0]) == ast.dump(x)):
+            return None
+        empty = ast.List(elts=[], ctx=ast.Load())
+    else:
+        if not (isinstance(v, ast.Set) and len(v.elts) == 1 and ast.dump(v.elts[0]) == ast.dump(x)):
+            return None
+        empty = ast.Call(func=ast.Name(id='set', ctx=ast.Load()), args=[], keywords=[])
+    if not _pure(x):
+        return None
+    test = _loc(ast.Compare(left=copy.deepcopy(k), ops=[ast.NotIn()], comparators=[copy.deepcopy(d)]), st)
+    new_init = _assign(init.targets[0], empty, init)
+    guard = _loc(ast.If(test=test, body=[new_init], orelse=[]), st)
+    return [guard, app]
+
+
+# --------------------------------------------------------------------------- N16 assignment expressions
+
+def _pure_env(e, env):
+    """_pure, with package functions known to be free of effects accepted as well."""
+    ctx, mname, aliases, loc = env
+    for n in ast.walk(e):
+        if isinstance(n, ast.Call):
+            f = n.func
+            if isinstance(f, ast.Name) and f.id not in loc and (f.id in PURE_BUILTINS or (mname, f.id) in ctx['pure']):
+                continue
+            if isinstance(f, ast.Attribute) and isinstance(f.value, ast.Name) and f.value.id in aliases \
+                    and f.value.id not in loc:
+                if (aliases[f.value.id], f.attr) in ctx['pure']:
+                    continue
+                return False
+            if isinstance(f, ast.Attribute) and f.attr in PURE_METHODS:
+                continue
+            return False
+        if isinstance(n, (ast.NamedExpr, ast.Yield, ast.YieldFrom, ast.Await, ast.Lambda)):
+            return False
+    return True
+
+
+def _n16_walrus(func, env):
+    """(a := v) with a bound nowhere else: v in place of the binding and of every use of a."""
+    params = _locals_of(func) - set(n.id for n in _own_walk(func) if isinstance(n, ast.Name)
+                                    and isinstance(n.ctx, (ast.Store, ast.Del)))
+    for lst in _stmt_lists(func):
+        for i, st in enumerate(lst):
+            heads = [st]
+            if isinstance(st, (ast.If, ast.While)):
+                heads = [st.test]
+            elif isinstance(st, ast.For):
+                heads = [st.iter]
+            elif isinstance(st, (ast.FunctionDef, ast.ClassDef, ast.Try, ast.With)):
+                continue
+            for hd in heads:
+                for w in ast.walk(hd):
+                    if not (isinstance(w, ast.NamedExpr) and isinstance(w.target, ast.Name)):
+                        continue
+                    a, v = w.target.id, w.value
+                    if a in _names(v) or isinstance(st, ast.While):
+                        continue
+                    if any(isinstance(x, (ast.NamedExpr, ast.Yield, ast.YieldFrom, ast.Await, ast.Lambda))
+                           for x in ast.walk(v)):
+                        continue
+                    is_path = _is_path(v) and isinstance(v, (ast.Attribute, ast.Subscript))
+                    if not (is_path or (_pure_env(v, env) and not isinstance(v, (ast.Constant, ast.Name)))):
+                        continue
+                    loads, stores = _count_names(func, a)
+                    if stores != 1 or loads == 0 or loads >= 100 or a in params:
+                        continue
+                    span = lst[i:]
+                    inside = sum(1 for s in span for n in ast.walk(s)
+                                 if isinstance(n, ast.Name) and n.id == a and isinstance(n.ctx, ast.Load))
+                    if inside != loads:
+                        continue
+                    last = max(k for k, s in enumerate(span) if any(
+                        isinstance(n, ast.Name) and n.id == a for n in ast.walk(s)))
+                    span = span[:last + 1]
+                    # the operands of v must keep their value over the span
+                    stable = True
+                    for sub in ast.walk(v):
+                        if isinstance(sub, (ast.Attribute, ast.Subscript)) and _is_path(sub):
+                            p = _path_str(sub)
+                            if p is not None and _kills_in(span, p):
+                                stable = False
+                        if isinstance(sub, ast.Name):
+                            for s in span:
+                                for x in ast.walk(s):
+                                    if isinstance(x, ast.Name) and x.id == sub.id and isinstance(x.ctx, (ast.Store, ast.Del)):
+                                        stable = False
+                    if not stable:
+                        continue
+                    reads_heap = any(isinstance(x, (ast.Attribute, ast.Subscript, ast.Call)) for x in ast.walk(v))
+                    if reads_heap and not is_path and _impure_call_in(span, env):
+                        continue
+                    if is_path:
+                        attrs = [x.attr for x in ast.walk(v) if isinstance(x, ast.Attribute)]
+                        fragile = any(isinstance(x, ast.Subscript) for x in ast.walk(v)) \
+                            or any(x in env[0]['rebound'] for x in attrs)
+                        if fragile and _impure_call_in(span, env):
+                            continue
+
+                    class _Un(ast.NodeTransformer):
+                        def visit_NamedExpr(self, n):
+                            self.generic_visit(n)
+                            if n is w:
+                                return _loc(copy.deepcopy(v), n)
+                            return n
+
+                        def visit_Name(self, n):
+                            if n.id == a and isinstance(n.ctx, ast.Load):
+                                return _loc(copy.deepcopy(v), n)
+                            return n
+                    for k in range(last + 1):
+                        lst[i + k] = _Un().visit(lst[i + k])
+                    return True
+    return False
+
+
 # --------------------------------------------------------------------------- driver
 
 def _functions(tree):
@@ -792,7 +1010,20 @@ def normalise(tree, ctx=None, mname='', aliases=None, enabled=None):
         stats[k] = stats.get(k, 0) + 1
     if on('N8'):
         _ExprCanon().visit(tree)
-    helpers = _expr_helpers(tree) if on('N5') else {}
+    keepf = ctx.get('keep_funcs')
+    refs, calls = {}, {}
+    for n in ast.walk(tree):
+        if isinstance(n, ast.Name):
+            refs[n.id] = refs.get(n.id, 0) + 1
+        if isinstance(n, ast.Call) and isinstance(n.func, ast.Name):
+            calls[n.func.id] = calls.get(n.func.id, 0) + 1
+    public_ok = None
+    if keepf is not None and on('N5x'):
+        public_ok = (lambda nm: nm not in keepf and nm not in ctx.get('external', set())
+                     and refs.get(nm, 0) == calls.get(nm, 0) and calls.get(nm, 0) > 0)
+    helpers = _expr_helpers(tree, public_ok) if on('N5') else {}
+    foreign = ctx.get('xhelpers', {}) if on('N5x') else {}
+    sigs = ctx.get('sigs', {}) if on('N14') else {}
     shelpers = _stmt_helpers(tree, ctx.get('external', set())) if on('N10') else {}
     for func in _functions(tree):
         for _round in range(6):
@@ -802,12 +1033,27 @@ def normalise(tree, ctx=None, mname='', aliases=None, enabled=None):
                 if _block_rewrite(func, lambda s_: _n10_inline_stmt(s_, shelpers, loc_)):
                     bump('N10')
                     changed = True
-            if helpers and func.name not in helpers:
-                inl = _Inline(helpers, _locals_of(func))
+            if sigs and _round == 0:
+                pz = _Positional(sigs, mname, aliases, _locals_of(func))
+                pz.visit(func)
+                if pz.count:
+                    stats['N14'] = stats.get('N14', 0) + pz.count
+                    changed = True
+            if (helpers or foreign) and func.name not in helpers:
+                inl = _Inline(helpers, _locals_of(func), foreign, aliases)
                 inl.visit(func)
                 if inl.done:
                     bump('N5')
                     changed = True
+            if on('N15') and _block_rewrite(func, _n15_dict_init):
+                bump('N15')
+                changed = True
+            if on('N16'):
+                k = 0
+                while k < 20 and _n16_walrus(func, (ctx, mname, aliases, _locals_of(func))):
+                    bump('N16')
+                    changed = True
+                    k += 1
             if on('N13') and _block_rewrite(func, _n13_annassign):
                 bump('N13')
                 changed = True
@@ -943,7 +1189,8 @@ def package_context(mods):
         ok = True
         cs = set()
         for n in _own_walk(f):
-            if isinstance(n, (ast.Global, ast.Nonlocal, ast.Yield, ast.YieldFrom, ast.Await, ast.With, ast.Import,
+            # (a generator without writes is as free of effects as a function without them)
+            if isinstance(n, (ast.Global, ast.Nonlocal, ast.Await, ast.With, ast.Import,
                               ast.ImportFrom, ast.FunctionDef, ast.ClassDef)):
                 ok = False
             tg = []
@@ -1009,7 +1256,49 @@ def package_context(mods):
                 dynamic.add(aliases[n.args[0].id])
             if isinstance(n, ast.Call) and isinstance(n.func, ast.Name) and n.func.id == 'globals':
                 dynamic.add(mname)
-    return {'pure': pure, 'rebound': rebound, 'external': external, 'dynamic': dynamic}
+    # plain positional parameter lists (N14) and single-expression helpers usable from other modules (N5x)
+    import builtins
+    sigs = {}
+    xhelpers = {}
+    for mname, (tree, aliases, classes) in mods.items():
+        top = set()
+        imported = set()
+        for st in tree.body:
+            if isinstance(st, (ast.FunctionDef, ast.ClassDef)):
+                top.add(st.name)
+            elif isinstance(st, ast.Assign):
+                for t in st.targets:
+                    top |= set(n.id for n in ast.walk(t) if isinstance(n, ast.Name))
+            elif isinstance(st, (ast.Import, ast.ImportFrom)):
+                for a in st.names:
+                    imported.add((a.asname or a.name).split('.')[0])
+        ndefs = {}
+        for st in tree.body:
+            if isinstance(st, ast.FunctionDef):
+                ndefs[st.name] = ndefs.get(st.name, 0) + 1
+        for st in tree.body:
+            if isinstance(st, ast.FunctionDef) and ndefs[st.name] == 1 and not st.decorator_list:
+                a = st.args
+                if not (a.vararg or a.posonlyargs):
+                    sigs[(mname, st.name)] = [x.arg for x in a.args]
+        for name, (st, e) in _expr_helpers(tree, lambda nm: True).items():
+            if ndefs.get(name) != 1:
+                continue
+            params = set(x.arg for x in st.args.args)
+            bound = set()
+            for x in ast.walk(e):
+                if isinstance(x, ast.comprehension):
+                    bound |= _names(x.target)
+                if isinstance(x, ast.Lambda):
+                    bound |= set(y.arg for y in x.args.args)
+            free = _names(e) - params - bound
+            modnames = set(n for n in free if n in top)
+            rest = free - modnames
+            if any(n in imported or not hasattr(builtins, n) for n in rest):
+                continue
+            xhelpers[(mname, name)] = (st, e, sorted(modnames))
+    return {'pure': pure, 'rebound': rebound, 'external': external, 'dynamic': dynamic, 'sigs': sigs,
+            'xhelpers': xhelpers}
 
 
 # --------------------------------------------------------------------------- N11 named constants
